@@ -84,6 +84,11 @@ def gen_c01_random(rnd, tier):
         fs = [rnd.randint(-1, tot + 1) for _ in range(20)] + [0, tot]
         out.append({'m': 'curve', 'op': 'stations', 'dim': dim, 'tolU': 0, 'fc': fc, 'sc': rnd.choice((0, -10, 4, -3, 7, -20, 12)),
                     'pts': pts, 'ls': ls, 'fs': fs, 'nz': rnd.choice((0, 0, 1))})        # nz: zero lengths handed over as -0.0
+        if dim == 2 and rnd.random() < 0.3:
+            # the same curve obtained as a DERIVED object: built from the opposite listing and reversed()
+            rec = dict(out[-1])
+            rec['from'] = ([pts[0]] + pts[:0:-1]) if fc else pts[::-1]
+            out.append(rec)
     # curves that are closed only within their tolerance (one lattice unit): rectangles whose last vertex stops one unit short of
     # the first one - the closing vertex is a vertex of its own and the seam has two distinct stored end points
     for _ in range(8 if tier == 'quick' else 80):
@@ -103,7 +108,7 @@ def gen_c01_random(rnd, tier):
 
 def gen_c05_random(rnd, tier):
     """many (total length, count / spacing) pairs: rounding of the last sample position is pair-specific"""
-    n = 2000 if tier == 'quick' else 20000
+    n = 6000 if tier == 'quick' else 40000
     out = []
     for _ in range(n):
         dim = rnd.choice((2, 3))
@@ -112,8 +117,10 @@ def gen_c05_random(rnd, tier):
         pts = lattice_curve(rnd, nv, 14, dim, closed=fc)
         built = pts + [pts[0]] if fc else pts
         L2 = 2 * cum(built)[-1]
-        mode = rnd.choice(('count', 'count', 'spacing', 'maxspacing'))
-        if mode == 'count':
+        mode = rnd.choice(('count', 'count', 'spacing', 'maxspacing', 'spacing_div', 'spacing_div'))
+        if mode == 'spacing_div':
+            k = rnd.randint(3, 160)            # spacing = length / k as a float: divides the length only up to rounding
+        elif mode == 'count':
             k = rnd.randint(3 if fc else 2, 64)
         elif mode == 'spacing':
             k = rnd.randint(1, max(1, L2 - 1))
